@@ -23,7 +23,7 @@ func init() {
 			"configured ESDTNFTImprovementV1ActivationEpoch; the constructor registers the object with the notifier before every success return; exactly the table's epoch rows use the epoch-driven IsActive, all others return constant true. " +
 			"All obligations are structural and finite; none is assumed.",
 		Trusted: []string{"sync/atomic", "the epoch notifier calls EpochConfirmed for every confirmed epoch", "T-REG (spec/registry.json)"},
-		Rules:   []func(*Ctx){c18r1, c18r2},
+		Rules:   []func(*Ctx){c18r1, c18r2, c18r3},
 	})
 }
 
@@ -651,4 +651,92 @@ func factoryFieldSource(p *Prog, field string) string {
 		return fmt.Sprintf("?(%d stores)", n)
 	}
 	return src
+}
+
+// c18r3: "contains exactly the 23 names": what the container reports is what was added. In the container's key listing
+// (the method returning the set of names) every key of the underlying map that is a string reaches the insertion into the
+// result: after the key's type test has succeeded neither the next key nor a return is reachable without it. A listing
+// that filters (by activity, by anything) makes the container look smaller than it is, and the schedule broadcast, which
+// walks the listing, skips what is filtered.
+func c18r3(c *Ctx) {
+	const rule = "C18-R3"
+	c.Rule(rule, "the container's key listing reports every registered name", 1)
+	n := 0
+	for _, fn := range c.P.Funcs {
+		if !c.P.InPkgs(fn, "builtInFunctions") || fn.Signature.Recv() == nil || fn.Signature.Results().Len() != 1 {
+			continue
+		}
+		if fn.Signature.Results().At(0).Type().String() != "map[string]struct{}" {
+			continue
+		}
+		// the insertion into the returned set
+		var upd *ssa.MapUpdate
+		var next ssa.Instruction
+		var ta ssa.Instruction
+		okCut := map[edge]bool{}
+		for _, b := range fn.Blocks {
+			for _, in := range b.Instrs {
+				switch x := in.(type) {
+				case *ssa.MapUpdate:
+					upd = x
+				case *ssa.Next:
+					next = x
+				case *ssa.TypeAssert:
+					if x.CommaOk {
+						ta = x
+					}
+				case *ssa.UnOp, *ssa.IndexAddr:
+				}
+			}
+		}
+		// a slice-driven loop has no Next: the loop header is the block holding the index φ
+		if next == nil {
+			for _, b := range fn.Blocks {
+				for _, in := range b.Instrs {
+					if ph, ok := in.(*ssa.Phi); ok && isInteger(ph.Type()) && next == nil {
+						// the first non-φ instruction of the header
+						for _, in2 := range b.Instrs {
+							if _, isPhi := in2.(*ssa.Phi); !isPhi {
+								next = in2
+								break
+							}
+						}
+					}
+				}
+			}
+		}
+		if upd == nil || next == nil {
+			continue
+		}
+		n++
+		construct := fn.Name() + ": every key reaches the result set"
+		from := ta
+		if from == nil {
+			from = next
+		} else {
+			// the key is not a string: nothing to report
+			for ed, fs := range c.P.Env(fn).EdgeFacts() {
+				for _, f := range fs {
+					if !f.Lin && !f.Pos && strings.HasPrefix(f.Atom, "cond:ok(") {
+						okCut[ed] = true
+					}
+				}
+			}
+		}
+		barriers := map[ssa.Instruction]bool{upd: true}
+		bad := ""
+		if from != next && reachesAvoiding(fn, from, next, barriers, okCut) {
+			bad = "the loop can go on to the next key"
+		}
+		if bad != "" {
+			c.FailX(Oblig{Rule: rule, Func: FuncName(fn), Construct: construct, Pos: c.P.InstrPos(upd), Kind: "violation",
+				Detail:   "after a key has been read " + bad + " without the key having been put into the result: the listing leaves out registered names (Len and Get still know them; the gas-schedule broadcast, which walks the listing, skips them)",
+				Expected: "every string key of the underlying map is reported"})
+		} else {
+			c.OK(rule, FuncName(fn), construct, c.P.InstrPos(upd), "after the key's type test every path to the next key passes the insertion")
+		}
+	}
+	if n == 0 {
+		c.Anchor(rule, "the container method that lists the registered names (returns map[string]struct{})")
+	}
 }
